@@ -127,7 +127,37 @@ def gen(rng, tier):
                 i = rng.randrange(0, n + 1); j = rng.randrange(i, n + 1)
                 j = min(n, ((j + 15) // 16) * 16) if rng.random() < 0.5 else j
                 cs.append(Case("%s %s %s %s %s" % (op, hx(key), hx(msg[:i]), hx(msg[i:j]), hx(msg[j:])), cls=op + "/3-way"))
-    # ---------------- increment
+    # ---------------- the streaming object verifier with a variable-length tag container: exactly the correct 16 bytes are
+    # accepted (a longer Vec is viewed through its first 16 bytes by the documented ByteArray<16> contract, a shorter one is a
+    # caller-contract panic in the unchanged code) — a proper prefix or any other value must never be accepted
+    for n in (0, 1, 16, 17, 40):
+        key, msg = rbytes(rng, 32), rbytes(rng, n)
+        mac = refs.poly1305(key, msg)
+        cut = n // 2
+        body = "%s %s" % (hx(msg[:cut]), hx(msg[cut:]))
+        cs.append(Case("poly1305_objverify %s %s %s" % (hx(key), hx(mac), body), cls="poly1305_objverify/good", expect="ok"))
+        cs.append(Case("poly1305_objverify %s %s %s" % (hx(key), hx(mac + b"\x00"), body), cls="poly1305_objverify/longer-prefix-ok", expect="ok", meta={"why": "documented prefix view of a longer Vec"}))
+        for k in range(0, 16):
+            cs.append(Case("poly1305_objverify %s %s %s" % (hx(key), hx(mac[:k]), body), cls="poly1305_objverify/short-prefix", expect=(lambda a: not a.startswith("ok")),
+                           meta={"why": "a %d-byte prefix of the correct tag was accepted" % k, "panic_ok": True}))
+        for f in flips(mac)[::9]:
+            cs.append(Case("poly1305_objverify %s %s %s" % (hx(key), hx(f), body), cls="poly1305_objverify/flip", expect="err"))
+            cs.append(Case("poly1305_objverify %s %s %s" % (hx(key), hx(f + b"\x07\x07"), body), cls="poly1305_objverify/flip-long", expect="err"))
+    # ---------------- increment: every short length, and longer buffers with all-zero / all-0xff 8-byte words in every position
+    for n in (16, 17, 23, 24, 25, 32, 33, 40):
+        for pat in range(1 << min(5, n // 8)):
+            v = bytearray(rbytes(rng, n))
+            for w in range(n // 8):
+                if pat >> w & 1:
+                    v[8 * w:8 * w + 8] = b"\x00" * 8
+            cs.append(Case("increment %s" % hx(bytes(v)), cls="increment/zero-words"))
+            v2 = bytearray(v)
+            for w in range(n // 8):
+                if not (pat >> w & 1):
+                    v2[8 * w:8 * w + 8] = b"\xff" * 8
+            cs.append(Case("increment %s" % hx(bytes(v2)), cls="increment/ff-words"))
+        cs.append(Case("increment %s" % hx(b"\x00" * n), cls="increment/zero"))
+        cs.append(Case("increment %s" % hx(b"\xff" * n), cls="increment/ff"))
     for n in range(0, 13):
         for v in ([b"\x00" * n, b"\xff" * n, rbytes(rng, n)] + [b"\xff" * k + rbytes(rng, n - k) for k in range(1, n)]):
             cs.append(Case("increment %s" % hx(v), cls="increment/len=%d" % n))
